@@ -160,6 +160,22 @@ fn tree_b() -> Tree {
 }
 
 pub fn race_scenario(name: &str, srcs: &SrcCache) -> Race2 {
+    if name == "backup||backup-combined-small-files" {
+        // small files combined into shared blocks, several hunks, a previous version
+        let opts = BOpts::new(2, 8, 6);
+        let scn = common::build_scenario(name, &[Step::Backup(common::tree_t1(), opts.clone())], common::tree_t2(), opts.clone(), srcs);
+        let (ta, tb) = (common::tree_t2(), common::tree_t3());
+        return Race2 {
+            name: name.to_string(),
+            initial: scn.pre.clone(),
+            band_src: scn.band_src.clone(),
+            specs: vec![
+                ActorSpec::Backup { src: srcs.dir_for(&ta), opts: opts.clone() },
+                ActorSpec::Backup { src: srcs.dir_for(&tb), opts },
+            ],
+            srcs: vec![ta, tb],
+        };
+    }
     let opts = BOpts::new(2, 1 << 20, 0);
     let hist: Vec<Step> = match name {
         "backup||backup-empty-archive" => vec![],
@@ -301,15 +317,18 @@ pub fn race_oracle(scn: &Race2, t: &Terminal, scratch: &Scratch) -> Vec<Violatio
 }
 
 pub fn race_names(thorough: bool) -> Vec<&'static str> {
-    let _ = thorough;
-    vec!["backup||backup-empty-archive", "backup||backup-after-b0"]
+    if thorough {
+        vec!["backup||backup-empty-archive", "backup||backup-after-b0", "backup||backup-combined-small-files"]
+    } else {
+        vec!["backup||backup-empty-archive", "backup||backup-after-b0"]
+    }
 }
 
 pub fn run(report: &Report, budget: &Budget) {
     // Part 1: histories
     let thorough = report.thorough();
     let depth = if thorough { 3 } else { 2 };
-    let hist_budget = Budget::new(if thorough { 600 } else { 25 });
+    let hist_budget = crate::util::sub_budget(if thorough { 600 } else { 25 });
     let st = hist::explore(report, &hist_budget, "C07", depth, thorough, thorough, thorough, &oracle, None, None);
     hist::write_stats(report, &st, depth);
     report.set("history_part", json!({"states": st.states, "transitions": st.transitions, "depth_completed": st.depth_completed}));
